@@ -408,6 +408,14 @@ where
                     "Unexpected end of file.",
                 ));
             }
+            if !path_str.ends_with('\n') {
+                // the report was cut off in the middle of this line: what we have read is
+                // only a part of the path
+                return Err(Error::new(
+                    ErrorKind::UnexpectedEof,
+                    "Unexpected end of file.",
+                ));
+            }
             if !path_str.starts_with("    ") || path_str.trim().is_empty() {
                 return Err(Error::new(
                     ErrorKind::InvalidData,
